@@ -25,6 +25,31 @@ from fractions import Fraction
 from vlib import cb, cl, clz, cn, co, cp, cq, cz, coq_eval_bools, coq_eval_print, exc_kind, load_corpus, shrink
 
 IMPORTS = "From PV Require Import C11.Model C11.Spec.\nLocal Open Scope Z_scope.\n"
+# Round-4 miss C11-g.  Spec.trn_okb (the hypothesis of c11_trn_roundtrip) asks for tokens free of ALL white space; the trn
+# format itself separates tokens by the ASCII space only, so "free of the format's delimiters" also covers tokens with an
+# interior tab / no-break space / U+3000 ...  The reading below is the wider class that the unchanged reader round-trips
+# (established character by character, see notes/C11_report.md "Round-4 misses"): a token is non-empty and free of ' ',
+# '{', LF, CR (inside an alternate also of '/' and '}'); the reader strips white space at both ends of the text in front
+# of the utterance id, hence the first top-level token must not START and the last must not END with white space.
+IMPORTS += """
+Definition c11h_wide_c (inside : bool) (c : Z) : bool :=
+  negb (c =? 32) && negb (c =? 10) && negb (c =? 13) && negb (c =? 123)
+  && (negb inside || (negb (c =? 47) && negb (c =? 125))).
+Fixpoint c11h_wide_elem (inside : bool) (x : elem) : bool :=
+  match x with
+  | Tok t => negb (is_nil t) && forallb (c11h_wide_c inside) t
+  | Alt brs => negb (is_nil brs) && negb (is_nil (last brs [])) &&
+               forallb (fun b => forallb (c11h_wide_elem true) b) brs
+  end.
+Definition c11h_ends_ok (xs : list elem) : bool :=
+  match xs with Tok (c :: _) :: _ => negb (is_space c) | _ => true end
+  && match last xs (Alt []) with Tok t => negb (is_space (last t 0)) | _ => true end.
+Definition c11h_trn_wide_okb (ts : list (str * list elem)) : bool :=
+  forallb (fun ut => utt_okb (fst ut) && forallb (c11h_wide_elem false) (snd ut) && c11h_ends_ok (snd ut)) ts.
+Definition c11h_trn_roundtrip_wide_okb (ts : list (str * list elem)) (rb : res (list (str * list elem))) : bool :=
+  implb (c11h_trn_wide_okb ts) (res_eqb (list_eqb utt_eqb) (Ok ts) rb).
+"""
+WIDE_TRN = "spec: read(write ts) = ts, tokens free of ' ', '{', line breaks (other white space not at the line's ends)"
 EXN = {"OSError": "IOError", "ValueError": "ValueError", "KeyError": "KeyError",
        "IndexError": "IndexError", "TypeError": "TypeError"}
 CORR = "corr:C11"
@@ -167,6 +192,7 @@ def terms_trn(case, out):
     rd = coq_trn_read(*out["r_file"])
     terms["read_trn(file) = model"] = f"check_read_trn 0%nat [] 0%nat {cs(out['w_file'])} {rd}" if rd else "false"
     terms["spec: read(write ts) = ts"] = f"trn_roundtrip_okb {T} {rd}" if rd else "false"
+    terms[WIDE_TRN] = f"c11h_trn_roundtrip_wide_okb {T} {rd}" if rd else "false"
     meta = []
     if "w_path" in out:
         if out["w_path"] != out["w_file"] or out["w_disk"] != out["w_file"]:
@@ -239,6 +265,9 @@ def terms_trn_pool(case, out):
     terms = {"read_trn(processes>0) = model":
              (f"res_eqb (list_eqb utt_eqb) ({fn} {cn(case['proc'])} {cl([cn(i) for i in sched])} "
               f"{cn(min(case['chunk'], 4000))} {cs(text)}) {rd}") if rd else "false"}
+    if "text" not in case:
+        # the file is write_trn's own output: any number of workers reads back what was written
+        terms[WIDE_TRN] = f"c11h_trn_roundtrip_wide_okb {coq_ts(case['ts'])} {rd}" if rd else "false"
     meta = []
     if out["pool"] != out["serial"]:
         meta.append("read_trn: result with worker processes differs from the serial result")
